@@ -3,7 +3,7 @@ LEVEL = "model_checking"
 TECHNIQUE = "CBMC bounded symbolic execution of http.c leaf parsers vs RFC 9112 reference recognisers (compositional)"
 UNITS = ["http.c", "http-internal.h", "evutil.c"]
 FUNCTIONS = ['evhttp_parse_firstline_', 'evhttp_parse_request_line', 'evhttp_parse_http_version', 'evhttp_parse_headers_', 'evhttp_append_to_last_header', 'evhttp_add_header', 'evhttp_header_is_valid_value', 'evhttp_add_header_internal', 'evhttp_find_header', 'evhttp_count_headers', 'evhttp_get_body', 'evhttp_get_body_length', 'evhttp_method_may_have_body_', 'evhttp_method_', 'evhttp_handle_chunked_read', 'evutil_ascii_strcasecmp', 'evutil_rtrim_lws_', 'evutil_strtoll']
-BOUNDS = 'request line <=20 symbolic bytes (thorough 24, NUL included); header section <=2 lines of <=8 bytes (thorough 10); framing decision: 10 (thorough 16) enumerated shapes of <=2 (3) fields {Content-Length, Transfer-Encoding, Connection, X-Y} with symbolic values <=8 (10) bytes [<=5 (6) when two Content-Length], all methods, HTTP/1.1; chunked body: symbolic stream <=8 (10) bytes; segmentation: stream <=6/7/14 (8/9/16) bytes for headers/chunked/status line with symbolic cut point, two reads'
+BOUNDS = 'request line <=20 symbolic bytes (thorough 24, NUL included); header section <=2 lines of <=8 bytes (thorough 9); framing decision: 10 (thorough 16) enumerated shapes of <=2 (3) fields {Content-Length, Transfer-Encoding, Connection, X-Y} with symbolic values <=8 (10) bytes [<=5 (6) when two Content-Length], all methods, HTTP/1.1; chunked body: symbolic stream <=8 (10) bytes; segmentation: stream <=6/7/14 (8/9/16) bytes for headers/chunked/status line with symbolic cut point, two reads'
 OUT = 'URI syntax of the target (C28: evhttp_uri_parse* are contract stubs); extension methods shorter than 3 bytes (14-byte minimum line length); whole connection flow / pipelining / 100-continue / responses written (C26, C27); HTTP/1.0 requests with Transfer-Encoding; line extraction over evbuffer chains (contract model env/http_lines.h and flat evbuffer env/http_flatbuf.h; buffer.c is C12/C13); NUL bytes inside chunk-size lines; Content-Length values longer than the value bound (overflow guard of the fix is exercised up to 10 digits only); trailer section contents (parsed by evhttp_parse_headers_ = obligation headers)'
 TEXT = 'Compositional (DESIGN 3.8): each server-side parsing leaf of http.c is run on fully symbolic bytes against an RFC 9112 reference recogniser (ref/http_ref.h): request line (method table, target split, version), header section (field split, OWS, obs-fold, NUL/CR, white space before colon), framing decision of evhttp_get_body (Content-Length 1*DIGIT and conflicts, Transfer-Encoding exactly chunked, methods without body), chunked decoder (size line, extensions, CRLF after data, last chunk), and segmentation independence of the stateful parsers (one read vs two reads at a symbolic cut). Accepted input must be what the reference derives (same fields), required rejections must happen, strictly grammatical input must be accepted.'
 NOTE = """Trusted: cbmc 6.11; libc models env/http_fmt.h (strtoll, sscanf "HTTP/%c.%c%c", strsep, strpbrk, ctype table checked against glibc); allocator env/http_alloc.h (strings in 32-byte objects: overruns inside the slack are not seen); reference ref/http_ref.h. libevent's deliberately non-conformant acceptance of white space inside the request target (EVHTTP_URI_NONCONFORMANT, regress http/simple_nonconformant) is modelled as intended behaviour: the reference splits such lines at the first and last SP. 9 defects found and fixed in /repo (fixes/C23-*.diff)."""
@@ -49,15 +49,17 @@ def _obligations(tier):
         ks = [K[x] for x in sh] + [0, 0, 0]
         ncl = sum(1 for x in sh if x in ("CL", "cl"))
         v = (8 if ncl < 2 else 5) if tier == "quick" else (10 if ncl < 2 else 6)
+        if ncl >= 2 and any(x in ("TE", "te") for x in sh):
+            v = 7  # "chunked" must be expressible
         obs.append(dict(name="framing_" + ("_".join(sh) or "none"), harness="C23_framing.c", entry="harness_framing",
                     defines=["VP_V=%d" % v, "VP_K0=%d" % ks[0], "VP_K1=%d" % ks[1], "VP_K2=%d" % ks[2]] ,
                     unwind=max(v + 3, 20), instrument=CUT_BODY, timeout=600 if tier == "quick" else 2400, mem_gb=6, native=False,
                     desc="framing decision for header fields [%s], values <=%d symbolic bytes, all methods" % (", ".join(sh), v)))
-    L, N = (2, 8) if tier == "quick" else (2, 10)
+    L, N = (2, 8) if tier == "quick" else (2, 9)
     KF_HDR = ["WS_COLON", "OWS_HTAB", "VALUE_CTL"]
     obs.append(dict(name="headers", harness="C23_headers.c", entry="harness_headers",
                 defines=["VP_L=%d" % L, "VP_N=%d" % N],
-                unwind=L * (N + 1) + 3, timeout=800, mem_gb=8,
+                unwind=L * (N + 1) + 3, timeout=800 if tier == "quick" else 3000, mem_gb=8,
                 desc="header section: <=%d lines of <=%d symbolic bytes vs RFC 9112 5 reference" % (L, N)))
     S = 8 if tier == "quick" else 10
     obs.append(dict(name="chunked", harness="C23_chunked.c", entry="harness_chunked", defines=["VP_S=%d" % S],
